@@ -184,7 +184,7 @@ def _stderr_segment(path, case):
     return seg
 
 
-def run_stage(prop, stage, tier, seed, rundir, only=None, verbose=False, dump=None):
+def run_stage(prop, stage, tier, seed, rundir, only=None, verbose=False, dump=None, history=None):
     """stage: dict(harness, flavor, quick, thorough, leaks, workers, args, hang_violation, timeout)"""
     res = StageResult()
     exe = build_harness(stage["harness"], stage["flavor"], quiet=not verbose)
@@ -209,7 +209,11 @@ def run_stage(prop, stage, tier, seed, rundir, only=None, verbose=False, dump=No
                    "--tmp", tmpdir]
             if ncases is not None and ncases >= 0:
                 cmd += ["--ncases", str(ncases)]
-            if only is not None:
+            if only is not None and history:
+                # replay with the same per-worker history: run the shard's cases up to 'only', report only that one
+                cmd += ["--shard", str(history["shard"]), "--nshards", str(history["nshards"]),
+                        "--first", str(history["first"]), "--last", str(only)]
+            elif only is not None:
                 cmd += ["--only", str(only)]
             else:
                 cmd += ["--shard", str(shard), "--nshards", str(nshards), "--first", str(first)]
@@ -261,7 +265,8 @@ def run_stage(prop, stage, tier, seed, rundir, only=None, verbose=False, dump=No
                                     del res.descs[k]
                     elif t == "viol":
                         res.violations.append(dict(key=ev.get("key", "?"), case=ev.get("case"),
-                                                   msg=ev.get("msg", ""), stage=sname, errfile=err))
+                                                   msg=ev.get("msg", ""), stage=sname, errfile=err,
+                                                   history=dict(shard=shard, nshards=nshards, first=first)))
                     elif t == "inconc":
                         res.inconclusive.append(dict(case=ev.get("case"), why=ev.get("why", "")))
                     elif t == "sample":
@@ -331,7 +336,8 @@ def run_stage(prop, stage, tier, seed, rundir, only=None, verbose=False, dump=No
                     res.violations.append(dict(key=key, case=case, stage=sname, errfile=err,
                                                msg="process died inside the case (rc=%s, ctx=%s)" % (
                                                    rc, (fate or {}).get("ctx", "")),
-                                               excerpt=excerpt))
+                                               excerpt=excerpt,
+                                               history=dict(shard=shard, nshards=nshards, first=first)))
             if only is not None:
                 return
             with lock:
